@@ -168,6 +168,15 @@ impl Cache {
     pub fn get(&mut self, name: &DomainName, qtype: QueryType) -> Vec<ResourceRecord> {
         let mut rrs = self.get_without_checking_expiration(name, qtype);
         rrs.retain(|rr| rr.ttl > 0);
+        #[cfg(resolved_verif)]
+        crate::verif::cache_event(
+            crate::verif::CacheOp::Get {
+                name: name.clone(),
+                qtype,
+                result: rrs.clone(),
+            },
+            || self.verif_inspect(),
+        );
         rrs
     }
 
@@ -180,6 +189,8 @@ impl Cache {
         name: &DomainName,
         qtype: QueryType,
     ) -> Vec<ResourceRecord> {
+        #[cfg(resolved_verif)]
+        use crate::verif::Instant;
         let now = Instant::now();
         let mut rrs = Vec::new();
         match qtype {
@@ -209,14 +220,77 @@ impl Cache {
             record.rtype_with_data.clone(),
             Duration::from_secs(record.ttl.into()),
         );
+        #[cfg(resolved_verif)]
+        crate::verif::cache_event(
+            crate::verif::CacheOp::Insert {
+                record: record.clone(),
+            },
+            || self.verif_inspect(),
+        );
     }
 
     /// Clear expired RRs and, if the cache has grown beyond its desired size,
     /// prunes domains to get down to size.
     ///
     /// Returns `(has overflowed?, current size, num expired, num pruned)`.
+    #[cfg_attr(resolved_verif, allow(unreachable_code))]
     pub fn prune(&mut self) -> (bool, usize, usize, usize) {
+        #[cfg(resolved_verif)]
+        {
+            let result = self.inner.prune();
+            crate::verif::cache_event(crate::verif::CacheOp::Prune { result }, || {
+                self.verif_inspect()
+            });
+            return result;
+        }
         self.inner.prune()
+    }
+
+    /// Read-only dump of the cache, for verification.
+    #[cfg(resolved_verif)]
+    pub fn verif_inspect(&self) -> crate::verif::Inspect {
+        use crate::verif::{to_ms, Inspect, InspectPartition, InspectRecord};
+        let mut partitions = Vec::new();
+        for (name, partition) in &self.inner.partitions {
+            let mut records = Vec::new();
+            for tuples in partition.records.values() {
+                for (rtype_with_data, expires) in tuples {
+                    records.push(InspectRecord {
+                        rr: ResourceRecord {
+                            name: name.clone(),
+                            rtype_with_data: rtype_with_data.clone(),
+                            rclass: RecordClass::IN,
+                            ttl: 0,
+                        },
+                        expires_ms: to_ms(*expires),
+                    });
+                }
+            }
+            partitions.push(InspectPartition {
+                name: name.clone(),
+                last_read_ms: to_ms(partition.last_read),
+                next_expiry_ms: to_ms(partition.next_expiry),
+                size: partition.size,
+                records,
+            });
+        }
+        Inspect {
+            partitions,
+            access_queue: self
+                .inner
+                .access_priority
+                .iter()
+                .map(|(k, Reverse(t))| (k.clone(), to_ms(*t)))
+                .collect(),
+            expiry_queue: self
+                .inner
+                .expiry_priority
+                .iter()
+                .map(|(k, Reverse(t))| (k.clone(), to_ms(*t)))
+                .collect(),
+            current_size: self.inner.current_size,
+            desired_size: self.inner.desired_size,
+        }
     }
 }
 
@@ -330,6 +404,8 @@ impl<K1: Clone + Eq + Hash, K2: Copy + Eq + Hash, V: PartialEq> PartitionedCache
         &mut self,
         partition_key: &K1,
     ) -> Option<&HashMap<K2, Vec<(V, Instant)>>> {
+        #[cfg(resolved_verif)]
+        use crate::verif::Instant;
         if let Some(partition) = self.partitions.get_mut(partition_key) {
             partition.last_read = Instant::now();
             self.access_priority
@@ -349,6 +425,8 @@ impl<K1: Clone + Eq + Hash, K2: Copy + Eq + Hash, V: PartialEq> PartitionedCache
         partition_key: &K1,
         record_key: &K2,
     ) -> Option<&[(V, Instant)]> {
+        #[cfg(resolved_verif)]
+        use crate::verif::Instant;
         if let Some(partition) = self.partitions.get_mut(partition_key) {
             if let Some(tuples) = partition.records.get(record_key) {
                 partition.last_read = Instant::now();
@@ -364,6 +442,8 @@ impl<K1: Clone + Eq + Hash, K2: Copy + Eq + Hash, V: PartialEq> PartitionedCache
     /// Insert a record into the cache, or reset the expiry time if already
     /// present.
     pub fn upsert(&mut self, partition_key: K1, record_key: K2, value: V, ttl: Duration) {
+        #[cfg(resolved_verif)]
+        use crate::verif::Instant;
         let now = Instant::now();
         let expiry = now + ttl;
         let tuple = (value, expiry);
@@ -468,6 +548,8 @@ impl<K1: Clone + Eq + Hash, K2: Copy + Eq + Hash, V: PartialEq> PartitionedCache
     ///
     /// Returns the number of records removed.
     fn remove_expired_step(&mut self) -> usize {
+        #[cfg(resolved_verif)]
+        use crate::verif::Instant;
         if let Some((partition_key, Reverse(expiry))) = self.expiry_priority.pop() {
             let now = Instant::now();
 
